@@ -100,13 +100,7 @@ def run(cx):
         cx.check('C10.G2', len(il) == 1, m.path, 'calls', 'single-data-lookup', str(len(il)))
     k = cx.fn('C10.G2', M + '::{closure@any#0}')
     if k:
-        t = cx.true_returns(k)
-        props = set()
-        for s in t:
-            props |= set(s.extra)
-            if cx.has_guard(s, r'^eq:LowerName\(\^+arg2,RrKey::name\(arg2\)\)$'):
-                props.add('eq')
-        cx.check('C10.G2', 'eq' in props and any(re.search(r'^LowerName::zone_of\(\^+arg2,RrKey::name\(arg2\)\)$', p) for p in props) and len(t) == 2, k.path, 'ret', 'exists=equal-or-below', '; '.join(sorted(props)))
+        cx.bool_exact('C10.G2', k, 'or', [r'eq:LowerName\(\^+arg2,RrKey::name\(arg2\)\)', r'LowerName::zone_of\(\^+arg2,RrKey::name\(arg2\)\)'], 'exists=equal-or-below')
     # ---------------------------------------------------------------- G3 response assembly
     b = cx.fn('C10.G3', 'hickory_server::zone_handler::catalog::build_authoritative_response::{closure#0}')
     if b:
